@@ -11,7 +11,7 @@ import time
 import traceback
 
 VERIF = os.path.dirname(os.path.dirname(os.path.abspath(__file__)))
-LEAN = os.path.join(VERIF, "lean")
+LEAN = os.environ.get("GSV_LEAN") or os.path.join(VERIF, "lean")   # GSV_LEAN: private copy of the Lean project (development aid: scratch-tree runs)
 REPO = os.environ.get("GSV_REPO", "/repo")
 OUT = os.environ.get("GSV_OUT", VERIF)     # where evidence/ and replays/ are written (development aid: mutant runs)
 SRC = os.path.join(REPO, "src", "gstools")
@@ -139,6 +139,9 @@ class GenGuard:
 
     def __enter__(self):
         self.fh = open(os.path.join(LEAN, ".gen.lock"), "w")
+        if os.environ.get("GSV_LEAN"):          # a private copy of the Lean project: nothing is shared, nothing to restore
+            self.exclusive = False
+            return self
         fcntl.flock(self.fh, fcntl.LOCK_SH)
         self.exclusive = False
         if _gen_would_change():
